@@ -135,8 +135,26 @@ func runRound(c Case, res *Result) {
 	res.Guns.Overlapping += rep.Overlapping
 	res.Guns.Shots += rep.Shots
 	res.Guns.FactoryCalls, res.Guns.Bound, res.Guns.GunsShooting = rep.FactoryCalls, rep.Bound, rep.GunsShooting
-	res.Served += b.finish()
-	res.Samples += readOutput(c, b.outFile, viol)
+	served := b.finish()
+	res.Served += served
+	samples, tags := readOutput(c, b.outFile, viol)
+	res.Samples += samples
+	if samples != served {
+		viol.add("the target served %d requests, the %s aggregator wrote %d samples: every request a gun sends is reported exactly once", served, c.Agg, samples)
+	}
+	if tags != nil && b.expectTags != nil {
+		want := b.expectTags()
+		for tag, n := range want {
+			if tags[tag] != n {
+				viol.add("phout holds %d samples tagged %q, the target served %d requests of that ammo entry: samples of different shots were mixed up", tags[tag], tag, n)
+			}
+		}
+		for tag, n := range tags {
+			if _, ok := want[tag]; !ok {
+				viol.add("phout holds %d samples with tag %q, which no ammo entry carries", n, tag)
+			}
+		}
+	}
 	if rep.Shots != int64(c.Shots) {
 		viol.add("%d shots were fired, the provider was limited to %d ammo and the schedule had more tokens", rep.Shots, c.Shots)
 	}
